@@ -46,7 +46,7 @@ def export_def_table(tier):
 
 def make_si(c, taps, window=None, **kw):
     """Real SIFrameComputer in the tiny instance c (a gen_mc.si_configs entry)."""
-    bank = stubs.StubBank(taps, [c["left"]] * len(taps))
+    bank = stubs.StubBank(taps, [c["left"]] * len(taps), real=not any(np.iscomplexobj(np.asarray(t)) for t in taps))
     L = c["M"] + c["S"] - 1
     D0 = max(L, 2)
     comp = compute.SIFrameComputer(bank, frame_shift_ms=c["S"], frame_style=c["style"],
@@ -167,6 +167,9 @@ def record_and_validate(run, tier, rng, prop):
                        for p in (True, False) for lg in (True, False) for en in (False, True)]
         for opt in options:
             taps = [list(nprng.randint(-3, 4, size=c["length"]).astype(float) + 0.5) for _ in range(nfilt)]
+            if prop == "C03" and (opt["use_log"] != opt["include_energy"]):
+                # a complex bank in half of the option matrix: |.|^p is the modulus (squared), not the square
+                taps = [[complex(v, w) for v, w in zip(t, nprng.randint(-3, 4, size=len(t)).astype(float) + 0.25)] for t in taps]
             if c["style"] == "centered":
                 # the centered computer keeps M taps starting one sample after the
                 # support's first; a stub filter must fit that window (generator constraint)
